@@ -8,6 +8,7 @@ import AcraModel.CrossClient.BoxLaws
 import AcraModel.CrossClient.Box45
 import AcraModel.CrossClient.NoPanic
 import AcraModel.CrossClient.Compat
+import AcraModel.Props.C01
 import AcraModel.Crypto.Shim
 /-!
 # C02 — data protected for one client is never revealed under another identity
@@ -119,6 +120,27 @@ theorem cross_client_reveal {c : CryptoOps} (hl : SealLaws c) (hc : SealCommit c
     (hown : revealAs c (storeOf c pairs syms) a v = .ok m) :
     revealAs c (storeOf c pairs syms) b v = .err :=
   process_cross hl hc (storeOf_separate hm hp hs hab) hown
+
+/-- **`cross_client_reveal` over `protect`, AcraBlock.** A value `m` protected as AcraBlock under ANY
+generation `key` of A's symmetric storage key (written before any number of rotations) is revealed to A
+and is an error for every other identity B – for arbitrary fresh key histories on both sides. (C01
+`reveal_protect_block_commit` supplies the owner's half. For AcraStructs C01's round trip needs the length
+laws `SealLen`/`MsgLen`, which must never be combined with the commitment laws; there the statement is
+`cross_client_reveal` with "A can reveal `v`" as its hypothesis, and the `box45` example below shows a
+`protect` output satisfying it.) -/
+theorem cross_client_reveal_protect_block {c : CryptoOps} (hl : SealLaws c) (hc : SealCommit c) (hm : MsgCommit c)
+    {pairs syms : History} (hp : Fresh pairs) (hs : Fresh syms) {a b : Bytes} (hab : a ≠ b)
+    (kvW : KeyView) (key m rnd p : Bytes)
+    (hkid : (keyId c key []).length = 2) (hW : kvW.sym = some key) (hmem : key ∈ keysOf syms a)
+    (hEncKey : ∀ encKey, c.enc key [] (rnd.take 32) ((rnd.drop 44).take 12) = some encKey → encKey.length < 65536)
+    (hplen : p.length < 2^63)
+    (hnm : matchKind .block m = false) (hnr : registryMatch m = false)
+    (hprot : protect c kvW .block m rnd = .ok p) :
+    revealAs c (storeOf c pairs syms) a p = .ok m ∧ revealAs c (storeOf c pairs syms) b p = .err := by
+  have hown : revealAs c (storeOf c pairs syms) a p = .ok m :=
+    C01.reveal_protect_block_commit c hl hc kvW (storeOf c pairs syms a) key m rnd p (keysOf syms a)
+      hkid hW rfl hmem hEncKey hplen hnm hnr hprot
+  exact ⟨hown, cross_client_reveal hl hc hm hp hs hab hown⟩
 
 /-- **AcraTranslator `Decrypt` / `DecryptSym`** (`DecryptWithHandler`) under another identity. -/
 theorem cross_client_decrypt {c : CryptoOps} (hl : SealLaws c) (hc : SealCommit c) (hm : MsgCommit c)
@@ -457,6 +479,14 @@ example : exStruct.length > 200 ∧ revealAs box45 exStore exA exStruct = .ok ex
 set_option maxRecDepth 100000 in
 /-- a value from before a rotation, translator entry point -/
 example : decryptAs box45 exStore exA .block exOldBlock = .ok exMsg ∧ decryptAs box45 exStore exB .block exOldBlock = .err := by decide
+
+set_option maxRecDepth 100000 in
+/-- the hypotheses of `cross_client_reveal_protect_block` hold for the value written under A's PREVIOUS key -/
+example : (keyId box45 [3, 2, 1] []).length = 2 ∧ [3, 2, 1] ∈ keysOf exSyms exA ∧
+    (∀ encKey, box45.enc [3, 2, 1] [] ((exRnd 56).take 32) (((exRnd 56).drop 44).take 12) = some encKey → encKey.length < 65536) ∧
+    matchKind .block exMsg = false ∧ registryMatch exMsg = false ∧
+    protect box45 { pub := none, privs := none, sym := some [3, 2, 1], syms := none } .block exMsg (exRnd 56) = .ok exOldBlock :=
+  ⟨by decide, by decide, by intro e h; cases h; decide, by decide, by decide, by decide⟩
 
 /-- the position hypothesis of `cross_client_column`, as a decidable check -/
 def exPosOk (kvA kvB : KeyView) (buf : Bytes) (i : Nat) : Bool :=
